@@ -2,7 +2,7 @@
 (* step st kind inputs = (st', expected observations).                                   *)
 (* Kinds flagged by is_monitor have inputs that are *observed* on the implementation and  *)
 (* a constant expected output: a mismatch there is a property violation on the real code. *)
-From VD Require Import Base.Words Model.Layout Model.Queue Extract.QueueIO Extract.QueueMon Extract.OwningIO Extract.MmioIO Model.PciBus Extract.PciBusIO Model.Blk Extract.BlkIO Model.Console Extract.ConsoleIO Extract.ConfigIO Extract.NetIO Extract.ConnMgrIO Extract.VsockIO.
+From VD Require Import Base.Words Model.Layout Model.Queue Extract.QueueIO Extract.QueueMon Extract.OwningIO Extract.MmioIO Model.PciBus Extract.PciBusIO Model.Blk Extract.BlkIO Model.Console Extract.ConsoleIO Extract.ConfigIO Extract.NetIO Extract.ConnMgrIO Extract.VsockIO Extract.InitIO.
 (* C09: required without Import (qualified use below), so that its short names shadow nothing here *)
 From VD Require Extract.TeardownIO.
 
@@ -24,7 +24,7 @@ Definition bad : list N := [77777].
 Definition is_diag (k : N) : bool := (k =? 140).
 
 Definition is_monitor (k : N) : bool :=
-  (k =? 1) || (k =? 2) || (k =? 612) || ((150 <=? k) && (k <? 170)) || (k =? 1950) || (k =? 1951) || mmio_is_monitor k || pci_is_monitor k || blk_is_monitor k || console_is_monitor k || config_is_monitor k || net_is_monitor k || connmgr_is_monitor k || vsock_is_monitor k || TeardownIO.teardown_is_monitor k.
+  (k =? 1) || (k =? 2) || (k =? 612) || ((150 <=? k) && (k <? 170)) || (k =? 1950) || (k =? 1951) || mmio_is_monitor k || pci_is_monitor k || blk_is_monitor k || console_is_monitor k || config_is_monitor k || net_is_monitor k || connmgr_is_monitor k || vsock_is_monitor k || TeardownIO.teardown_is_monitor k || init_is_monitor k.
 
 Definition dir_reads (d : N) : bool := (d =? 0) || (d =? 2).
 Definition dir_writes (d : N) : bool := (d =? 1) || (d =? 2).
@@ -48,6 +48,8 @@ Definition step (st : mstate) (k : N) (ins : list N) : mstate * list N :=
   else
   (* ---- C10: MMIO transport (kinds 1000..1099) ---- *)
   if (1000 <=? k) && (k <? 1100) then (st, mmio_step k ins) else
+  (* ---- C08: initialisation handshake and feature gating (kinds 800..899) ---- *)
+  if (800 <=? k) && (k <? 900) then (st, init_step k ins) else
   (* ---- virtqueue core (C01-C05, C07, C19) ---- *)
   if k =? 100 then
     match ins with
